@@ -22,7 +22,10 @@ func vfLifecycleRun(sc vfScript) []map[string]any {
 	ops, _ := sc.Cfg["ops"].([]any)
 	waitersAny, _ := sc.Cfg["waiters"].([]any)
 	calls, _ := vfNum(sc.Cfg, "calls")
-	withCancel, _ := vfBool(sc.Cfg, "cancel")
+	cancelWho, _ := sc.Cfg["cancel"].(string)
+	withCancel := cancelWho != "" && cancelWho != "none"
+	var cancels []context.CancelFunc
+	ctargets := []string{}
 	type ret struct {
 		w  string
 		ok bool
@@ -43,9 +46,15 @@ func vfLifecycleRun(sc vfScript) []map[string]any {
 		w := w
 		cur := State(0)
 		seen[w] = &cur
+		wctx, wcancel := context.WithCancel(ctx)
+		defer wcancel()
+		if cancelWho == "all" || cancelWho == w {
+			cancels = append(cancels, wcancel)
+			ctargets = append(ctargets, w)
+		}
 		c.Spawn(w, func() {
 			for i := 0; i < calls; i++ {
-				ok := m.WaitForStateChange(ctx, cur)
+				ok := m.WaitForStateChange(wctx, cur)
 				rets = append(rets, ret{w, ok})
 				if !ok {
 					return
@@ -57,7 +66,9 @@ func vfLifecycleRun(sc vfScript) []map[string]any {
 	if withCancel {
 		c.Spawn("cancel", func() {
 			verifsched.Point("c_cancel")
-			cancel()
+			for _, f := range cancels {
+				f()
+			}
 		})
 	}
 	scen, _ := vfNum(sc.Cfg, "scen")
@@ -78,7 +89,7 @@ func vfLifecycleRun(sc vfScript) []map[string]any {
 		ev["ret"] = rl
 	}
 	emit := func(r verifsched.Rec, ok bool) {
-		ev := map[string]any{"ev": "step", "t": r.Thread, "from": r.From, "to": r.To, "p": r.Progress, "ok": ok}
+		ev := map[string]any{"ev": "step", "t": r.Thread, "from": r.From, "to": r.To, "p": r.Progress, "ok": ok, "ctargets": ctargets}
 		snap(ev)
 		out = append(out, ev)
 	}
